@@ -25,19 +25,19 @@ TABLE = [
     (r"^SealedState::apply_tip_906_for_next_state\|assert\|Overflow\(Add\)\|CoinMapping::coin_count", "assume", "a covenant's coin count stays below 2^64"),
     (r"^SealedState::apply_tip_906_for_next_state\|assert\|Overflow\(Sub\)\|phi\(", "inv", "progress counter starts at tree.count() and is decremented once per iterated entry of the same tree"),
     (r"^SealedState::apply_tip_906_for_next_state\|unwrap\|expect\|stdcode::deserialize\(elem\(Tree::iter", "inv", "before TIP-906 the coin tree holds only CoinDataHeight entries: count entries are written only when tip_906 (C20.R1)"),
-    (r"^(SealedState::confirm|StakeSet::total_votes|StakeSet::votes)(::c\d+)?\|(extern\|sum\||assert\|Overflow\(Add\)\|.*syms_staked)", "assume", "Σ syms_staked ≤ SYM supply ≤ 2^127: every transaction-made stake locks a distinct real coin of that value (C13.R1); genesis stakes are configuration"),
+    # (removed with repair e9bdbb6, D20) the voting-power sums saturate; a plain `.sum()` / `+` over syms_staked is an unlisted site again: SYM can be minted by faucets on every network but mainnet
     (r"^SealedState::header(::c0)?\|unwrap\|unwrap\|SmtMapping::get\((\^inner|\$1\.0)\.history", "inv", "next_unsealed inserts the header of height h−1 before a state of height h exists (C07.R2)"),
     (r"^SealedState::next_unsealed\|extern\|<melstructs::BlockHeight as std::ops::AddAssign>::add_assign", "assume", "height < u64::MAX (bounded horizon)"),
     (r"^StakeSet::post_tip911\|assert\|Overflow\(Add\)\|\$2,1", "assume", "epoch < u64::MAX"),
     (r"^Tip911::calculate_merkle::c0\|index\|index\|\^self\.stakes,RangeToInclusive", "inv", "k ranges over 0..stakes.len()"),
     (r"^UnsealedState::apply_tip_909\|assert\|Overflow\(Shr\)\|1048576,Div\(", "assume", "halving index < 128, i.e. height < TIP-909 + 1.28e8 (bounded horizon; latent afterwards)"),
     (r"^UnsealedState::apply_tip_909\|assert\|Overflow\(Sub\)\|Shr\(1048576", "inv", "x − (x >> k) and x − x/2 cannot underflow"),
-    (r"^UnsealedState::apply_tip_909\|extern\|<melstructs::CoinValue as std::ops::AddAssign>::add_assign", "assume", "fee pool + MEL taken from the pool ≤ MEL supply ≤ 2^127"),
+    # (removed with repair e9bdbb6, D20) fee_pool + MEL taken from the pool: saturating now; the plain `+=` is an unlisted site again
     (r"^UnsealedState::apply_tip_909\|extern\|swap_many\|", "priced-pool", "MEL/SYM is created by create_builtins at the chain's first seal with 10^9 unowned liquidity per side (C16.R2) and swaps are assumed never to drain a side to zero; ERG/SYM can be pre-empted by users before TIP-902 and emptied (finding D19), so its use is guarded by a reserve test (evaluated here)"),
-    (r"^UnsealedState::apply_tip_909\|unwrap\|unwrap\|SmtMapping::get\(\$1\.pools, PoolKey::new\(Denom::(Mel|Erg)\{\}, Denom::Sym\{\}\)\)", "inv", "create_builtins dominates in seal (C16.R1/R2); ERG/SYM exists because TIP-902 (180000) activates before TIP-909 (950000) and both use the same activation rule"),
-    (r"^UnsealedState::collect_proposer_action_fee\|extern\|<melstructs::CoinValue as std::ops::Add>::add", "assume", "fee_pool/65536 + tips ≤ MEL supply ≤ 2^127"),
+    (r"^UnsealedState::apply_tip_909\|unwrap\|unwrap\|SmtMapping::get\((\$1|self)\.pools, PoolKey::new\(Denom::(Mel|Erg)\{\}, Denom::Sym\{\}\)\)", "inv", "create_builtins dominates in seal (C16.R1/R2); ERG/SYM exists because TIP-902 (180000) activates before TIP-909 (950000) and both use the same activation rule"),
+    # (removed with repair e9bdbb6, D20) fee_pool/65536 + tips: saturating now; the plain `+` is an unlisted site again (tips of faucet transactions are minted)
     (r"^UnsealedState::collect_proposer_action_fee\|extern\|<melstructs::CoinValue as std::ops::SubAssign>::sub_assign\|self\.fee_pool,Shr\(self\.fee_pool\.0, 16\)", "inv", "x − (x >> 16) cannot underflow"),
-    (r"^applytx::check_tx_validity\|(extern\|<&u128 as std::ops::Add<u128>>::add|assert\|Overflow\(Add\))\|(Option::unwrap_or\(HashMap::get|Entry::or_insert\(HashMap::entry)\(in_coins, ", "assume", "inputs are distinct existing coins (C02.R3) and the supply of a denomination is ≤ 2^127 (the site the `overflow_coins` test exercises beyond the precondition)"),
+    (r"^applytx::check_tx_validity\|(extern\|<&u128 as std::ops::Add<u128>>::add|assert\|Overflow\(Add\))\|(Option::unwrap_or\(HashMap::get|Entry::or_insert\(HashMap::entry)\(in_coins, ", "finding", "D20: the sum of the inputs of one denomination is a plain u128 `+`; distinct existing coins bound it by the supply, which is below 2^127 on mainnet but unbounded wherever Faucet transactions are admitted — the repository's own test `overflow_coins` (#[should_panic]) pins the abort, so it cannot be repaired with the suite unedited"),
     (r"^applytx::compute_doscmint_speed\|assert\|DivisionByZero\|", "inv", "called after this.history.get(coin.height)? succeeded (C18.R1): history holds only past headers, so coin.height < this.height"),
     (r"^applytx::compute_doscmint_speed\|extern\|<melstructs::BlockHeight as std::ops::Sub>::sub\|\$3,\$4", "inv", "coin.height < this.height (same reason)"),
     (r"^applytx::compute_doscmint_speed\|(assert\|Overflow\(Mul\)|extern\|pow)\|", "assume", "reached only after Proof::verify returned true, which in melpow 0.1.2 requires difficulty ≤ 64 (larger values panic inside verify: finding D11)"),
@@ -222,11 +222,15 @@ def r1_inventory(ctx):
             continue
         seen.add(key)
         if verdict == "finding":
-            hs = sig(s.operands[-1]).split("::")[0] if s.operands else "?"
-            nverify[hs] = nverify.get(hs, 0) + 1
-            # the n-th unguarded verification with this hasher: the first one is the recorded finding wherever the call is hosted,
-            # a further one is a new site
-            r.violation("finding/melpow::Proof::verify|%s|#%d" % (hs, nverify[hs]), "reachable panic in the trusted base without a guard: %s (%s)" % (s.what, why), s.where())
+            if s.what == "verify":
+                hs = sig(s.operands[-1]).split("::")[0] if s.operands else "?"
+                nverify[hs] = nverify.get(hs, 0) + 1
+                # the n-th unguarded verification with this hasher: the first one is the recorded finding wherever the call is hosted,
+                # a further one is a new site
+                fkey = "finding/melpow::Proof::verify|%s|#%d" % (hs, nverify[hs])
+            else:
+                fkey = "finding/" + re.sub(r"\|(extern\|<&u128 as std::ops::Add<u128>>::add|assert\|Overflow\(Add\))\|.*", "|input-total-overflow", key)[:150]
+            r.violation(fkey, "reachable panic in the trusted base without a guard: %s (%s)" % (s.what, why), s.where())
         elif verdict == "selected":
             ok = _selected_ok(prog, s)
             if ok is None:
